@@ -20,9 +20,9 @@ rustflags = ["--cfg", "zlink_verif"]
 
 def write_if_changed(path, text):
     os.makedirs(os.path.dirname(path), exist_ok=True)
-    if os.path.exists(path) and open(path).read() == text:
+    if os.path.exists(path) and open(path, encoding="utf-8").read() == text:
         return False
-    with open(path, "w") as f:
+    with open(path, "w", encoding="utf-8") as f:
         f.write(text)
     return True
 
@@ -81,8 +81,8 @@ def run_bin(name, stdin_text="", timeout=600, args=""):
     exe = os.path.join(TARGET, "debug", name)
     rc, out = sh("%s %s" % (exe, args), timeout=timeout, input=stdin_text)
     res = []
-    for line in out.splitlines():
-        line = line.strip()
+    for line in out.split("\n"):      # not splitlines(): U+0085 / U+2028 inside a JSON string are data
+        line = line.strip(" \r\t")
         if line.startswith("{"):
             try:
                 res.append(json.loads(line))
